@@ -756,6 +756,34 @@ unsafe fn scenario_immortal(seed: u64, out: &mut Outcome) {
             format!("trusted proxies {entries:?} given at creation yield client address {:?}, added one by one {:?} (peer {peer}, X-Forwarded-For {:?})", seen.first(), seen.get(1), String::from_utf8_lossy(chain))
         });
     }
+    // "no trusted proxies configured" has three spellings — a NULL object, an object created from NULL, an object
+    // created from the empty list — and they must derive the same client address from the same peer and forwarding
+    // headers (peers in private, loopback and public ranges; X-Forwarded-For and Forwarded)
+    {
+        let peer = ["10.0.0.1:1", "127.0.0.1:80", "192.168.1.1:9", "[::1]:80", "203.0.113.9:443", "172.16.3.4:1"][rng.below(6)];
+        let header: (&[u8], &[u8]) = [
+            (&b"X-Forwarded-For"[..], &b"203.0.113.7"[..]),
+            (&b"X-Forwarded-For"[..], &b"198.51.100.1, 10.9.9.9"[..]),
+            (&b"Forwarded"[..], &b"for=203.0.113.7;proto=https"[..]),
+            (&b"forwarded"[..], &b"for=\"[2001:db8::7]:4711\""[..]),
+        ][rng.below(4)];
+        let from_null = redirectionio_trusted_proxies_create(null()) as *mut TrustedProxies;
+        let from_empty = redirectionio_trusted_proxies_create(cstr("").as_ptr()) as *mut TrustedProxies;
+        let mut seen: Vec<String> = Vec::new();
+        for proxies in [null_mut(), from_null, from_empty] {
+            let headers = build_header_map(&[(header.0.to_vec(), header.1.to_vec())]);
+            let r = redirectionio_request_create(cstr("/x").as_ptr(), null(), null(), null(), headers) as *mut Request;
+            let _ = take_header_map(headers);
+            if !r.is_null() {
+                redirectionio_request_set_remote_addr(r, cstr(peer).as_ptr(), proxies);
+                seen.push(format!("{:?}", (*r).remote_addr));
+                redirectionio_request_drop(r);
+            }
+        }
+        out.check(seen.len() == 3 && seen[0] == seen[1] && seen[1] == seen[2], || {
+            format!("no trusted proxies configured: a NULL object yields client address {:?}, an object created from NULL {:?}, from the empty list {:?} (peer {peer}, {} {:?})", seen.first(), seen.get(1), seen.get(2), String::from_utf8_lossy(header.0), String::from_utf8_lossy(header.1))
+        });
+    }
     redirectionio_log_init_with_callback(log_callback, &*(&CALLBACK_DATA as *const u8 as *const c_void));
     // produce a log line through the callback: an invalid action json logs an error
     let c = cstr("{not json").into_raw();
